@@ -7,7 +7,7 @@ CLAIMS = {
     'C19': 'PARTIAL -- the QUIC connector\'s shared-connection cache only: get_connection dials exactly when nothing is cached, caches what it dialled, leaves nothing cached after a failed dial, always comes back; connect forgets the shared connection whenever a request over it fails with a connection-level ("quic:") error, keeps it after a success, and reports the failure. These are necessary conditions for "new requests succeed again without a restart"; detection of a dead connection in time, the number of attempts, other connectors and tunnels open across the outage are NOT decided',
     'C09': 'PARTIAL -- the operator tables only: every binary operator spelling of the documented table (milu/readme.md) is listed by a precedence level of the parser and is the token that level\'s alt list (ordered choice of prefix matches, read from the MIR of op_N) picks on every input that starts with it; the levels are nested in the documented precedence order; parse2 has a constructor for every token the levels can produce. NOT decided: the rest of the grammar, whitespace/comments, and that minimally parenthesised expressions parse like fully parenthesised ones (that needs nom\'s combinators themselves)',
     'C14': 'PARTIAL -- lock-discipline kernels only: the API handlers get_alive / get_history / get_rules / post_rules never hold a registry lock (live map, history list, rule list) across any other await, and h11c_handshake (HTTP and QUIC listeners) never holds the connection\'s lock while waiting for bytes from the client; decided as trace properties (acquire / await / drop order) of each function\'s MIR. These are sufficient conditions for "one stalled client cannot make others wait through these locks"; bounded completion time, lock fairness and multi-task scheduling are NOT decided',
-    'C10': 'PARTIAL -- the accept step of the reverse UDP listener only: every datagram udp_accept accepts is handed to exactly one session, the one keyed by the datagram\'s (v4-mapped) source address, including the datagram that opens the session; a new session is registered with the channel its reader listens on. NOT decided: SOCKS5 UDP associate, tproxy UDP, UDP over HTTP/QUIC hops, the reply path and its labelling, anything involving more than one task',
+    'C10': 'PARTIAL -- (a) the inline stream hop: StreamFrameReader::read returns each frame exactly once and whole, from any carry-over state under any segmentation into <= 3 (5) reads; (b) the accept step of the reverse UDP listener: every datagram udp_accept accepts is handed to exactly one session, the one keyed by the datagram\'s (v4-mapped) source address, including the datagram that opens the session; a new session is registered with the channel its reader listens on. NOT decided: SOCKS5 UDP associate, tproxy UDP, UDP over HTTP/QUIC hops, the reply path and its labelling, anything involving more than one task',
     'C01': 'PARTIAL -- the buffered (non-splice) relay only: one direction of copy_half, executed with its real tokio::select! lowering, writes to the destination exactly the bytes read from the source, in order, flushed, for any source of <= 6 bytes delivered in <= 2 (3) pieces and any buffer size 1..8; copy_bidi forwards and flushes the bytes the handshake\'s BufReader had already buffered on either side before it takes the buffered wrappers apart; the inline frame channel is built on the buffered stream (no read-ahead dropped). NOT decided: the splice(2) path, listener x connector pairings as such, isolation between connections, concurrency of the two directions',
     'C04': 'PARTIAL -- buffered mode only: a direction finishes Ok only at end of stream with everything delivered, end of stream is passed on (shutdown of the write side) after the data and nothing is written after it; copy_bidi reports the tunnel finished only after both directions ended, recording ClientShutdown and ServerShutdown, while an unfinished direction keeps being polled. NOT decided: "identically in both I/O modes" (splice path), FIN/RST on real sockets, promptness',
     'C02': 'the dispatcher opens an upstream iff the first-match result is an allowing rule whose connector has the feature (all symbolic outcome combinations of one request), Rule::evaluate\'s verdict mapping, the first-match closure, and cidr_match feeding the cidr crate exactly the parsed address',
